@@ -403,6 +403,7 @@ func runCaseOn(c Case, sh *shared) (ret *retained, obs Obs, nontrivial bool) {
 		e = &el.Event{Type: el.EventType(ty), CreatedAt: tm, Payload: payload, Formatted: formatted}
 	}
 	snapBefore := jgen.Snapshot(payload)
+	errsBefore := jgen.ErrorsIn(payload) // error values must stay the very same values
 
 	// node
 	src, srcTok, srcOK := mkURL(c.Source)
@@ -462,7 +463,7 @@ func runCaseOn(c Case, sh *shared) (ret *retained, obs Obs, nontrivial bool) {
 	obs.Table = map[string]string{}
 	var after map[string][]byte
 	if e != nil {
-		obs.Frame = string(e.Type) == string(ty) && e.CreatedAt.Equal(tm) && e.CreatedAt.Location() == tm.Location() && jgen.Snapshot(e.Payload) == snapBefore
+		obs.Frame = string(e.Type) == string(ty) && e.CreatedAt.Equal(tm) && e.CreatedAt.Location() == tm.Location() && jgen.Snapshot(e.Payload) == snapBefore && jgen.SameErrors(errsBefore, jgen.ErrorsIn(e.Payload))
 		after = e.Formatted
 		for k, v := range e.Formatted {
 			obs.Table[k] = hex.EncodeToString(v)
